@@ -12,18 +12,18 @@ for e in idx:
     d=f"{root}/{e['id']}"
     def tail(f,n=3):
         p=f"{d}/{f}"
-        return [l.rstrip() for l in open(p).read().splitlines()[-n:]] if os.path.exists(p) else None
+        return [l.rstrip() for l in open(p,errors='replace').read().splitlines()[-n:]] if os.path.exists(p) else None
     checks={}
     for f in sorted(os.listdir(d)):
         m=re.match(r'check_(C\d+)\.txt',f)
         if not m: continue
-        txt=open(f"{d}/{f}").read()
+        txt=open(f"{d}/{f}",errors='replace').read()
         viol=[l.strip() for l in txt.splitlines() if l.startswith('  C')]
         checks[m.group(1)]={"caught":'VIOLATION property=' in txt,"first_violation":viol[0][:300] if viol else None}
     suite=tail('suite_with.txt',2)
     meta={
-      "id":e['id'],"property":e['property'],"round":2 if e['id'].startswith('r') else 1,
-      "origin":"independent sub-agent given only the property text and a scratch worktree"+(" plus one sentence naming the change an earlier sub-agent had already made to the same property (so as to get a different one) and a request for two conditions lining up" if e['id'].startswith('r') else ""),
+      "id":e['id'],"property":e['property'],"round":{"s":1,"r":2,"t":3}[e['id'][0]],
+      "origin":"independent sub-agent given only the property text and a scratch worktree"+(" plus one sentence naming the change an earlier sub-agent had already made to the same property (so as to get a different one) and a request for two conditions lining up" if e['id'][0] in 'rt' else ""),
       "change":e['change'],"files":e['files'],"needs_to_manifest":e['needs'],
       "demonstration":sorted(os.listdir(f"{d}/demo")),
       "ran":[
